@@ -19,6 +19,7 @@ type Decision struct {
 	N      int  `json:"n"`
 	Forced bool `json:"f,omitempty"`
 	Kind   string `json:"k,omitempty"`
+	Val    uint64 `json:"v,omitempty"`
 }
 
 type deferred struct {
@@ -101,6 +102,7 @@ type PathResult struct {
 	Reaches     map[string]bool
 	Alts        [][]Decision
 	Steps       int
+	Observed    []string
 	Inconcl     []string
 	Forks       int
 	SamplePC    string
@@ -142,6 +144,12 @@ type Interp struct {
 	allVars   []string
 	funcIDs   int
 	mergeDepth int
+	merges     int
+	mergeFails int
+	captures   []*retCapture
+	observed   []string
+	concPos    int
+	fnSeen     map[*ssa.Function]bool
 }
 
 type pathAbort struct {
@@ -186,6 +194,9 @@ func (in *Interp) choose(n int, kind string) int {
 	if n <= 1 {
 		return 0
 	}
+	if in.mergeDepth > 0 {
+		panic(mergeFail{"nondeterministic choice in merged region"})
+	}
 	idx := len(in.trace)
 	if idx < len(in.prefix) {
 		d := in.prefix[idx]
@@ -210,6 +221,9 @@ func (in *Interp) addPC(t *Term) {
 	if t.IsTrue() {
 		return
 	}
+	if in.mergeDepth > 0 {
+		panic(mergeFail{"path condition change in merged region"})
+	}
 	in.pc = append(in.pc, t)
 	in.solver.Assert(t)
 }
@@ -219,7 +233,7 @@ func (in *Interp) branch(cond *Term) bool {
 	if cond.IsConst() {
 		return cond.Val == 1
 	}
-	if len(in.wlog) > 0 && in.mergeDepth > 0 {
+	if in.mergeDepth > 0 {
 		panic(mergeFail{"symbolic branch in merged region"})
 	}
 	idx := len(in.trace)
@@ -268,21 +282,38 @@ func (in *Interp) branch(cond *Term) bool {
 	}
 }
 
-// concretize forces a term to a concrete value by forking over its feasible values.
+// concretize forces a term to a concrete value by forking over its feasible values.  The
+// value picked from the solver's model is recorded in the decision so that re-execution of
+// the prefix is deterministic.
 func (in *Interp) concretize(t *Term, what string) uint64 {
 	if t.IsConst() {
 		return t.Val
 	}
-	for i := 0; i < 4096; i++ {
-		r := in.solver.Check(nil)
-		if r != "sat" {
-			in.solver.Done()
-			if r == "unsat" {
-				in.abort("pruned", "infeasible path in concretize")
-			}
-			in.inconclusive("solver unknown while concretizing " + what)
+	if in.mergeDepth > 0 {
+		panic(mergeFail{"concretization in merged region"})
+	}
+	eqv := func(v uint64) *Term {
+		if t.W == 0 {
+			return Eq(t, BoolC(v != 0))
 		}
-		// need the variable declared: reference it
+		return Eq(t, Const(t.W, v))
+	}
+	for i := 0; i < 4096; i++ {
+		idx := len(in.trace)
+		if idx < len(in.prefix) {
+			d := in.prefix[idx]
+			if d.Kind != "conc" {
+				in.inconclusive(fmt.Sprintf("nondeterministic replay at decision %d: expected concretization, recorded %s", idx, d.Kind))
+			}
+			in.trace = append(in.trace, d)
+			if d.Choice == 0 {
+				in.addPC(eqv(d.Val))
+				return d.Val
+			}
+			in.addPC(Not(eqv(d.Val)))
+			continue
+		}
+		// fresh: obtain a model value
 		probe := in.freshVar("conc", maxw(t.W))
 		var eq *Term
 		if t.W == 0 {
@@ -290,25 +321,29 @@ func (in *Interp) concretize(t *Term, what string) uint64 {
 		} else {
 			eq = Eq(probe, t)
 		}
-		in.solver.Done()
-		in.addPC(eq)
-		r = in.solver.Check(nil)
+		r := in.solver.Check(eq)
 		if r != "sat" {
 			in.solver.Done()
-			in.inconclusive("solver " + r + " while concretizing " + what)
+			if r == "unsat" {
+				in.abort("pruned", "infeasible path in concretize")
+			}
+			in.inconclusive("solver unknown while concretizing " + what)
 		}
 		m := in.solver.Model([]string{probe.Name})
 		in.solver.Done()
 		v := m[probe.Name]
-		var c *Term
-		if t.W == 0 {
-			c = Eq(t, BoolC(v != 0))
-		} else {
-			c = Eq(t, Const(t.W, v))
+		ro := in.solver.Check(Not(eqv(v)))
+		in.solver.Done()
+		if ro != "unsat" {
+			alt := make([]Decision, len(in.trace)+1)
+			copy(alt, in.trace)
+			alt[len(in.trace)] = Decision{Choice: 1, N: 2, Kind: "conc", Val: v}
+			in.alts = append(in.alts, alt)
+			in.res.Forks++
 		}
-		if in.branch(c) {
-			return v
-		}
+		in.trace = append(in.trace, Decision{Choice: 0, N: 2, Kind: "conc", Val: v, Forced: ro == "unsat"})
+		in.addPC(eqv(v))
+		return v
 	}
 	in.inconclusive("too many values concretizing " + what)
 	return 0
@@ -340,8 +375,10 @@ func (in *Interp) runPath(entry *ssa.Function) (res *PathResult) {
 				res.Detail = fmt.Sprintf("engine panic: %v%s", r, in.where())
 			}
 		}
+		in.w.noteFuncs(in.fnSeen)
 		res.Alts = in.alts
 		res.Steps = in.steps
+		res.Observed = in.observed
 		if res.Outcome == "inconclusive" {
 			res.Inconcl = append(res.Inconcl, res.Detail)
 		}
@@ -382,6 +419,10 @@ func (in *Interp) pushFrame(g *Goroutine, fn *ssa.Function, args []Value, free [
 		in.inconclusive("call depth exceeded at " + fn.String())
 	}
 	fr := &Frame{fn: fn, env: make(map[ssa.Value]Value, 16), block: fn.Blocks[0]}
+	if in.fnSeen == nil {
+		in.fnSeen = map[*ssa.Function]bool{}
+	}
+	in.fnSeen[fn] = true
 	if len(args) != len(fn.Params) {
 		panic(engineErr(fmt.Sprintf("arity mismatch calling %s: %d args for %d params", fn, len(args), len(fn.Params))))
 	}
@@ -782,6 +823,11 @@ func (in *Interp) jump(fr *Frame, to *ssa.BasicBlock) {
 }
 
 func (in *Interp) doReturn(g *Goroutine, fr *Frame, rv Value) {
+	if n := len(in.captures); n > 0 && in.captures[n-1].fr == fr && !in.captures[n-1].done {
+		in.captures[n-1].val = rv
+		in.captures[n-1].done = true
+		return
+	}
 	g.stack = g.stack[:len(g.stack)-1]
 	if fr.onRet != nil {
 		fr.onRet(rv)
@@ -890,6 +936,9 @@ func (in *Interp) loadLeaf(c *Cell) Value {
 }
 
 func (in *Interp) storeLeaf(c *Cell, v Value) {
+	if c.Frozen {
+		panic(engineErr("store into a merged (read-only) slice view"))
+	}
 	if n := len(in.wlog); n > 0 {
 		in.wlog[n-1][c] = v
 		return
